@@ -44,9 +44,10 @@ class LineText:
 @register
 class AddLineUnknownVersion(Contract):
     fn = "gfapy/lines/creators.py::Creators.__add_line_unknown_version"
-    props = ("C13", "C18")
+    props = ("C13", "C18", "C08")
     fragment = "H"
-    doc = ("while the version is unknown: a comment is connected; a header is merged and fixes the version iff it carries VN (1.0 -> gfa1, 2.0 -> gfa2, "
+    doc = ("(C08) a line that cannot be parsed, or a header that cannot be merged, is refused with the Gfa unchanged: version, guess, queue, "
+           "number of input header lines, nothing connected or processed. While the version is unknown: a comment is connected; a header is merged and fixes the version iff it carries VN (1.0 -> gfa1, 2.0 -> gfa2, "
            "anything else is refused by _validate_version at level >= 1); a segment fixes the version to its own syntax; E F G U O fix gfa2; in these "
            "cases the queue is processed exactly once, after the version is set, and the line is connected; L C P set the guess to gfa1 and are queued; "
            "any other record is queued. Every line built from a string receives the Gfa's vlevel (comments excepted) and dialect.")
@@ -64,20 +65,24 @@ class AddLineUnknownVersion(Contract):
         heap = {s.oid: {"_vlevel": vl, "_dialect": dialect, "_version": None, "_version_guess": "gfa2", "_version_explanation": None,
                         "_line_queue": Queue(), "_n_input_header_lines": z3.Int("nh"), "header": hdr}, hdr.oid: {}, dialect.oid: {}}
         text = LineText(rt)
+        parse_ok, merge_ok = z3.Bool("line_can_be_parsed"), z3.Bool("header_can_be_merged")
+        nh0 = heap[s.oid]["_n_input_header_lines"]
         def m_line_ctor(E, st, pos_, kw):
+            yield ("raise", Exc(g.FormatError), [z3.Not(parse_ok)], st.with_ghost("failed_at", "parse"))
             ln = Obj(g.Line, "built")
             st2 = st.with_ghost("built", st.ghost.get("built", 0) + 1)
             st2 = st2.with_ghost("vlevel_ok", ("vlevel" in kw and kw["vlevel"] is vl))
             st2 = st2.with_ghost("dialect_ok", kw.get("dialect") is dialect)
             st2 = st2.setattr(ln, "VN", Opt(z3.Not(has_vn), vn)).setattr(ln, "version", segv).setattr(ln, "name", Unknown("name"))
-            yield ("val", ln, [], st2)
+            yield ("val", ln, [parse_ok], st2)
         def cur_version(st):
             v = st.attrs(s).get("_version")
             return v.val if isinstance(v, Opt) else v
         def m_connect(E, st, pos_, kw):
             yield ("val", None, [], st.with_ghost("connected", st.ghost.get("connected", 0) + 1).with_ghost("connected_after_process", bool(st.ghost.get("processed"))))
         def m_merge(E, st, pos_, kw):
-            yield ("val", None, [], st.with_ghost("merged", st.ghost.get("merged", 0) + 1))
+            yield ("raise", Exc(g.InconsistencyError), [z3.Not(merge_ok)], st.with_ghost("failed_at", "merge"))
+            yield ("val", None, [merge_ok], st.with_ghost("merged", st.ghost.get("merged", 0) + 1))
         def m_process(E, st, pos_, kw):
             yield ("val", None, [], st.with_ghost("processed", st.ghost.get("processed", 0) + 1).with_ghost("version_known_at_process", cur_version(st) is not None))
         def m_validate_version(E, st, pos_, kw):
@@ -100,9 +105,17 @@ class AddLineUnknownVersion(Contract):
                 if ver is None or isinstance(ver, str):
                     return z3.BoolVal(ver == x)
                 return S(ver) == (sv(x) if isinstance(x, str) else x) if x is not None else z3.BoolVal(False)
-            if k == "raise":
-                return z3.And(z3.BoolVal(v.cls is g.VersionError), rt == sv("H"), has_vn, vn != sv("1.0"), vn != sv("2.0"), vl > 0)
             n = lambda key: gh.get(key, 0)
+            if k == "raise":
+                if gh.get("failed_at") in ("parse", "merge"):
+                    nh = st.attrs(s).get("_n_input_header_lines")
+                    unchanged = z3.And(ver_eq(None), z3.BoolVal(guess == "gfa2"), S(nh) == nh0,
+                                       z3.BoolVal(n("queued") == 0 and n("processed") == 0 and n("connected") == 0 and n("merged") == 0))
+                    return z3.And(z3.BoolVal(issubclass(v.cls, g.Error)), unchanged, z3.Not(parse_ok) if gh.get("failed_at") == "parse" else z3.Not(merge_ok))
+                nh = st.attrs(s).get("_n_input_header_lines")
+                return z3.And(z3.BoolVal(v.cls is g.VersionError), rt == sv("H"), has_vn, vn != sv("1.0"), vn != sv("2.0"), vl > 0,
+                              # (C08) the unsupported version is refused before anything of the line is kept
+                              ver_eq(None), S(nh) == nh0, z3.BoolVal(n("merged") == 0 and n("processed") == 0 and n("queued") == 0))
             version_ok = z3.If(rt == sv("H"), z3.If(has_vn, z3.If(vn == sv("1.0"), ver_eq("gfa1"), z3.If(vn == sv("2.0"), ver_eq("gfa2"), z3.BoolVal(True))), ver_eq(None)),
                          z3.If(rt == sv("S"), ver_eq(segv), z3.If(isrt(*GFA2_ONLY), ver_eq("gfa2"), ver_eq(None))))
             decides = z3.Or(rt == sv("S"), isrt(*GFA2_ONLY), z3.And(rt == sv("H"), has_vn))
@@ -118,8 +131,8 @@ class AddLineUnknownVersion(Contract):
                 # C18: the Gfa's level and dialect reach every line built here (a comment carries no validated field)
                 z3.If(isrt("H", "S", *GFA2_ONLY), z3.BoolVal(n("built") == 1 and bool(gh.get("vlevel_ok")) and bool(gh.get("dialect_ok"))), z3.BoolVal(True)))
         pre = [prt, pv, vl >= 0, vl <= 3, z3.Implies(has_vn, vn != sv(""))]      # a tag value is never empty (tag grammar)
-        return [Case("str", [s, text], post, pre=pre, heap=heap, symbols=dict(rt=rt, vlevel=vl, VN=vn, header_has_VN=has_vn, segment_version=segv),
+        return [Case("str", [s, text], post, pre=pre, heap=heap, symbols=dict(rt=rt, vlevel=vl, VN=vn, header_has_VN=has_vn, segment_version=segv, line_can_be_parsed=parse_ok, header_can_be_merged=merge_ok),
                      models=models, minimize=[vl], expect_paths=8,
                      replay=lambda w: {"target": "bounded.replay_helpers:add_line_unknown_version",
-                                       "args": [w["rt"], w["vlevel"], w["VN"], w["header_has_VN"], w["segment_version"]]},
+                                       "args": [w["rt"], w["vlevel"], w["VN"], w["header_has_VN"], w["segment_version"], w.get("line_can_be_parsed", True), w.get("header_can_be_merged", True)]},
                      confirm=lambda w, out: out.get("kind") != "return" or out.get("value") is not True)]
